@@ -10,7 +10,7 @@ import convlib as cl
 ID = "C02"
 COQ_PROPS = "Props/C02.v"
 COQ_EXTRA_TARGETS = ["Conv/CorrGeom.vo"]
-THEOREMS = ["C02_values", "C02_values_rescaled", "C02_geometry", "C02_geometry_sources", "C02_geometry_irregular", "C02_invariance", "C02_dtype", "C02_dtype_lattice"]
+THEOREMS = ["C02_values", "C02_values_rescaled", "C02_geometry_partial", "C02_geometry_refuted", "C02_geometry_sources", "C02_geometry_irregular", "C02_geometry_bound", "C02_invariance", "C02_dtype", "C02_dtype_lattice"]
 ALLOWED_AXIOMS = []
 TABLES = ["t_stack", "t_time", "t_conv"]
 RULE = ("complete S x T x V grids (quick: S <= 3, T, V <= 3 incl. all shapes with T != V; thorough: S <= 5, T, V <= 4) x orientation {axial, sagittal, coronal, in-plane "
@@ -23,7 +23,8 @@ RULE = ("complete S x T x V grids (quick: S <= 3, T, V <= 3 incl. all shapes wit
         "identity, or more than one volume, or the files differ in pixel format")
 TRUSTED_BASE = [
     "nibabel's classic DicomWrapper as a CONTRACT (Conv/Geom.v: slice_normal, slice_indicator, dicom_affine, pix_at), read from nibabel 5.4.2 and "
-    "compared with the real wrapper's affine / slice_indicator / get_data on every case",
+    "compared with the real wrapper's affine / slice_indicator / get_data on every case (slice indicator exactly whenever np.inner is exact "
+    "in float64 for every file - flag pos_exact -, to 2^-30 otherwise)",
     "Stack/Model.v (file order, shape, in-place reversal) and Orient/Model.v (reorder_voxels with nibabel's io_orientation / apply_orientation / "
     "inv_ornt_aff), each tied to the code by its own correspondence (C11/C12, C17) and again here end to end",
     "numpy array filling / views are index maps (Orient.Model.tabulate); numpy itself is not modelled",
@@ -36,15 +37,19 @@ ASSUMPTIONS = [
     "passes value x common denominator to the model, which only moves values around) and stored values fit BitsStored; the files of a "
     "series may differ in rescale, BitsStored, signedness and BitsAllocated (8 / 16 / 32-signed)",
     "dtype lattice int8, uint8, int16, uint16, int32, float32, float64 (uint32 and wider are outside the model)",
-    "C02_geometry: the files' positions lie on a line with equal gaps (hypothesis on_line; derived in C02_geometry_sources, for every reachable "
+    "C02_geometry_partial: the files' positions lie on a line with equal gaps (hypothesis on_line; derived in C02_geometry_sources, for every reachable "
     "stack, from: sorter position = slice indicator (positions_ok; both read from the same DicomWrapper, compared to 2^-30 on every case), shared "
     "orientation / spacing, displacement proportional to the slice indicator, positions in exact arithmetic progression)",
     "the stack ACCEPTS slice gaps that differ by up to 4 % and takes the slice column from the first two sorted files only: for such series the "
-    "affine is NOT exact; C02_geometry_irregular gives the exact position error of slice s, (sum_{j<s} (gap_j - gap_0)) x displacement direction "
-    "(kernel-checked witness C02_geometry_irregular_ex: slices at 1, 3, 5.06 -> the last slice is mapped 0.06 off); the generators use exactly "
-    "equidistant slices and the geometry oracle is stated for those",
-    "the DICOM rescale is part of the model as a relation (Conv/Geom.v rescaled_ok: g_pix = slope x stored + intercept, in units of 1/den), tied to "
-    "nibabel's get_unscaled_data / scale_factors on every case; C02_values_rescaled states the output values in terms of the stored pixels",
+    "affine is NOT exact: the registered geometry clause is proved only as C02_geometry_partial (equidistant sources) and REFUTED in general "
+    "(C02_geometry_refuted: accepted slices at 1, 3, 5.06 -> the last slice is mapped 0.06 off); C02_geometry_irregular gives the exact position "
+    "error of slice s, (sum_{j<s} (gap_j - gap_0)) x displacement direction, and C02_geometry_bound bounds it by the acceptance tolerance "
+    "(s x (gap_0 / 12 + 25/12 x 1e-8), from T_stack.spacing_rtol = 4 % and numpy's atol); the generators use exactly equidistant slices and the "
+    "geometry oracle is stated for those",
+    "the DICOM rescale is NOT computed by the model: nibabel applies it and the model's input pixels g_pix are what DicomWrapper.get_data() "
+    "returns; `rescaled_ok` (g_pix = den x (slope x stored + intercept)) is a HYPOTHESIS of C02_values_rescaled on those input pixels, checked "
+    "per case by the correspondence (CorrGeom.rescales_ok against get_unscaled_data / scale_factors), and by the oracle clause `abstraction` "
+    "against the generator's stored pixels and RescaleSlope / RescaleIntercept",
     "float rounding on non-dyadic geometry is not modelled (compared to 2^-30 only)",
 ]
 
